@@ -33,6 +33,7 @@ static PEAK: AtomicUsize = AtomicUsize::new(0);
 static mut CUR_CASE: [u8; 4096] = [0; 4096];
 static CUR_LEN: AtomicUsize = AtomicUsize::new(0);
 const HUGE: usize = 1 << 30;
+const MAX_ID: u32 = 49;
 
 struct Counting;
 fn note_huge(size: usize) {
@@ -142,7 +143,8 @@ macro_rules! types {
         30 => AccountTransactionV1<EncodedPayload>, 31 => UpdateHeader, 32 => UpdateInstructionSignature,
         33 => UpdateInstruction, 34 => UpdatePayload, 35 => BI, 36 => LeverageFactor, 37 => MintDistributionV0,
         38 => PoolParameters, 39 => TimeoutParameters, 40 => AccThreshold, 41 => TransactionFeeDistribution,
-        42 => GASRewards, 43 => UpdateKeysThreshold
+        42 => GASRewards, 43 => UpdateKeysThreshold, 44 => AccessStructure, 45 => HigherLevelAccessStructure<RootKeysKind>,
+        46 => AuthorizationsV0, 47 => RootUpdate, 48 => Level1Update, 49 => ArInfoT
     } };
 }
 
@@ -208,11 +210,11 @@ unmodelled!(named_impl);
 
 // ---------------------------------------------------------------- pool of opaque leaves
 struct Pool { ed_pk: Vec<Vec<u8>>, vrf_pk: Vec<Vec<u8>>, bls_pk: Vec<Vec<u8>>, dlog: Vec<Vec<u8>>, blsproof: Vec<Vec<u8>>,
-              cred_id: Vec<Vec<u8>>, bakers: Vec<(BakerAddKeysPayload, BakerUpdateKeysPayload, ConfigureBakerKeysPayload)>, keypairs: Vec<KeyPair> }
+              cred_id: Vec<Vec<u8>>, elg_pk: Vec<Vec<u8>>, bakers: Vec<(BakerAddKeysPayload, BakerUpdateKeysPayload, ConfigureBakerKeysPayload)>, keypairs: Vec<KeyPair> }
 
 fn make_pool(seed: u64) -> Pool {
     let mut rng = StdRng::seed_from_u64(seed ^ 0x5eed_c05);
-    let mut p = Pool { ed_pk: vec![], vrf_pk: vec![], bls_pk: vec![], dlog: vec![], blsproof: vec![], cred_id: vec![], bakers: vec![], keypairs: vec![] };
+    let mut p = Pool { ed_pk: vec![], vrf_pk: vec![], bls_pk: vec![], dlog: vec![], blsproof: vec![], cred_id: vec![], elg_pk: vec![], bakers: vec![], keypairs: vec![] };
     for i in 0..4u8 {
         let kp = BakerKeyPairs::generate(&mut rng);
         let sender = AccountAddress([i; 32]);
@@ -238,6 +240,12 @@ fn make_pool(seed: u64) -> Pool {
         use concordium_base::curve_arithmetic::Curve;
         let g = concordium_base::id::constants::ArCurve::generate(&mut rng);
         p.cred_id.push(to_bytes(&CredentialRegistrationID::new(g)));
+    }
+    for _ in 0..4 {
+        use concordium_base::curve_arithmetic::Curve;
+        let gen = concordium_base::id::constants::ArCurve::generate(&mut rng);
+        let sk = concordium_base::elgamal::SecretKey::generate(&gen, &mut rng);
+        p.elg_pk.push(to_bytes(&concordium_base::elgamal::PublicKey::from(&sk)));
     }
     p
 }
@@ -344,7 +352,10 @@ impl<'a> G<'a> {
         UpdateInstructionSignature { signatures: m }
     }
     fn update_payload(&mut self) -> UpdatePayload {
-        match self.r.below(9) {
+        match self.r.below(12) {
+            9 => { let w = self.r.next(); UpdatePayload::Root(self.root_update(w)) }
+            10 => { let w = self.r.next(); UpdatePayload::Level1(self.level1_update(w)) }
+            11 => UpdatePayload::AddAnonymityRevoker(Box::new(self.ar_info())),
             0 => UpdatePayload::ElectionDifficulty(ElectionDifficulty::new(*self.r.pick(&[0u32, 1, 100_000, 25_000])).unwrap()),
             1 => { let (a, b) = self.coprime(); UpdatePayload::EuroPerEnergy(ExchangeRate::new(a.max(1), b).unwrap_or(ExchangeRate::new_unchecked(1, 1))) }
             2 => UpdatePayload::FoundationAccount(self.addr()),
@@ -356,6 +367,63 @@ impl<'a> G<'a> {
             _ => UpdatePayload::FinalizationCommitteeParametersCPV2(FinalizationCommitteeParameters { min_finalizers: self.r.u32_edge(), max_finalizers: self.r.u32_edge(),
                     finalizers_relative_stake_threshold: PartsPerHundredThousands::new(*self.r.pick(&[0u32, 100_000, 777])).unwrap() }),
         }
+    }
+    fn threshold_for(&mut self, n: usize) -> UpdateKeysThreshold {
+        let t = match self.r.below(3) { 0 => 1, 1 => n as u64, _ => 1 + self.r.below(n as u64) };
+        UpdateKeysThreshold::try_from(t as u16).unwrap()
+    }
+    fn access_structure(&mut self, nkeys: u16) -> AccessStructure {
+        let mut set = BTreeSet::new();
+        let want = match self.r.below(4) { 0 => 1, 1 => 2, _ => 1 + self.r.below(5) };
+        for _ in 0..want { set.insert(UpdateKeysIndex { index: if nkeys == 0 || self.r.chance(1, 8) { self.r.below(65536) as u16 } else { self.r.below(nkeys as u64) as u16 } }); }
+        let threshold = self.threshold_for(set.len());
+        AccessStructure { authorized_keys: set, threshold }
+    }
+    fn hlas<K>(&mut self) -> HigherLevelAccessStructure<K> {
+        let n = *self.r.pick(&[1usize, 1, 2, 3, 7]);
+        let keys: Vec<UpdatePublicKey> = (0..n).map(|_| UpdatePublicKey { public: self.verify_key() }).collect();
+        let threshold = self.threshold_for(n);
+        HigherLevelAccessStructure { keys, threshold, _phantom: Default::default() }
+    }
+    fn auth_v0(&mut self) -> AuthorizationsV0 {
+        let n = *self.r.pick(&[0usize, 1, 2, 5]);
+        let keys: Vec<UpdatePublicKey> = (0..n).map(|_| UpdatePublicKey { public: self.verify_key() }).collect();
+        let n = n as u16;
+        AuthorizationsV0 { keys, emergency: self.access_structure(n), protocol: self.access_structure(n), election_difficulty: self.access_structure(n),
+            euro_per_energy: self.access_structure(n), micro_gtu_per_euro: self.access_structure(n), foundation_account: self.access_structure(n),
+            mint_distribution: self.access_structure(n), transaction_fee_distribution: self.access_structure(n), param_gas_rewards: self.access_structure(n),
+            pool_parameters: self.access_structure(n), add_anonymity_revoker: self.access_structure(n), add_identity_provider: self.access_structure(n) }
+    }
+    fn auth_v1(&mut self, plt: bool) -> AuthorizationsV1 {
+        let v0 = self.auth_v0();
+        let n = v0.keys.len() as u16;
+        AuthorizationsV1 { v0, cooldown_parameters: self.access_structure(n), time_parameters: self.access_structure(n),
+                           create_plt: if plt { Some(self.access_structure(n)) } else { None } }
+    }
+    fn root_update(&mut self, which: u64) -> RootUpdate {
+        match which % 5 {
+            0 => RootUpdate::RootKeysUpdate(self.hlas()),
+            1 => RootUpdate::Level1KeysUpdate(self.hlas()),
+            2 => RootUpdate::Level2KeysUpdate(Box::new(self.auth_v0())),
+            3 => RootUpdate::Level2KeysUpdateV1(Box::new(self.auth_v1(false))),
+            _ => RootUpdate::Level2KeysUpdateV2(Box::new(self.auth_v1(true))),
+        }
+    }
+    fn level1_update(&mut self, which: u64) -> Level1Update {
+        match which % 4 {
+            0 => Level1Update::Level1KeysUpdate(self.hlas()),
+            1 => Level1Update::Level2KeysUpdate(Box::new(self.auth_v0())),
+            2 => Level1Update::Level2KeysUpdateV1(Box::new(self.auth_v1(false))),
+            _ => Level1Update::Level2KeysUpdateV2(Box::new(self.auth_v1(true))),
+        }
+    }
+    fn ascii(&mut self, max: u64) -> String { let l = self.r.below(max + 1); (0..l).map(|_| (32 + self.r.below(95) as u8) as char).collect() }
+    fn ar_info(&mut self) -> ArInfoT {
+        let i = self.r.below(self.pool.elg_pk.len() as u64) as usize;
+        let mut b = to_bytes(&(1 + self.r.u32_edge() % (u32::MAX - 1)));
+        for m in [0u64, 20, 40] { let s = self.ascii(m); b.extend(to_bytes(&(s.len() as u32))); b.extend(s.as_bytes()); }
+        b.extend(&self.pool.elg_pk[i]);
+        concordium_base::common::from_bytes(&mut std::io::Cursor::new(&b)).unwrap()
     }
     fn account_tx_encoded(&mut self) -> AccountTransaction<EncodedPayload> {
         let p = self.payload(); let enc = p.encode();
@@ -432,6 +500,12 @@ impl<'a> G<'a> {
             40 => to_bytes(&AccThreshold::try_from(1 + self.r.below(255) as u8).unwrap()),
             42 => to_bytes(&GASRewards { baker: self.fraction(), finalization_proof: self.fraction(), account_creation: self.fraction(), chain_update: self.fraction() }),
             43 => to_bytes(&UpdateKeysThreshold::try_from(1 + self.r.below(65535) as u16).unwrap()),
+            44 => to_bytes(&self.access_structure(4)),
+            45 => to_bytes(&self.hlas::<RootKeysKind>()),
+            46 => to_bytes(&self.auth_v0()),
+            47 => { let w = self.r.next(); to_bytes(&self.root_update(w)) }
+            48 => { let w = self.r.next(); to_bytes(&self.level1_update(w)) }
+            49 => to_bytes(&self.ar_info()),
             _ => return None,
         })
     }
@@ -484,7 +558,7 @@ fn check_out(key: &str, input: &[u8], o: &Out, viol: &mut Vec<serde_json::Value>
 
 fn fuzz(seed: u64, n: u64) {
     let mut keys: Vec<String> = named_types().iter().map(|s| s.to_string()).collect();
-    for id in 1..=43u32 { keys.push(id.to_string()); }
+    for id in 1..=MAX_ID { keys.push(id.to_string()); }
     let pool = make_pool(seed);
     let mut g = G { r: Rng::new(seed ^ 0x77), pool: &pool };
     for (ti, key) in keys.iter().enumerate() {
@@ -512,6 +586,293 @@ fn fuzz(seed: u64, n: u64) {
     }
 }
 
+// ---------------------------------------------------------------- per-variant VALUE oracles
+// Every variant of every hand-written sum type is constructed as a value (several, boundary-sized
+// where the variant has sizes) and checked: decode(encode v) = v (Debug form), exact consumption in
+// front of trailing bytes, identical re-encoding.  The `*_variant` functions are exhaustive matches
+// WITHOUT a wildcard arm: a variant added to the crate breaks the harness build (reported by the
+// check), and the `*_ALL` lists make a variant that is no longer constructed a reported gap.
+use concordium_base::id::{constants::{ArCurve, AttributeKind, IpPairing}, types as idt};
+
+struct Heavy { ip_info: IpInfoT, ars: Vec<ArInfoT>, icdi: idt::InitialCredentialDeploymentInfo<ArCurve, AttributeKind>, cdi: CredInfo,
+               enc: EncAmountTransfer, s2p: SecToPub }
+
+fn make_heavy(seed: u64) -> Heavy {
+    use concordium_base::id::{account_holder::create_credential, identity_provider::verify_credentials, test::*};
+    use concordium_base::{elgamal, encrypted_transfers as et};
+    let mut csprng = StdRng::seed_from_u64(seed ^ 0x4ea5);
+    let num_ars = 3u8;
+    let idt::IpData { public_ip_info: ip_info, ip_secret_key, ip_cdi_secret_key } = test_create_ip_info(&mut csprng, num_ars, 10);
+    let global = idt::GlobalContext::<ArCurve>::generate(String::from("verif-c05"));
+    let (ars_infos, _) = test_create_ars(&global.on_chain_commitment_key.g, num_ars, &mut csprng);
+    let id_use_data = test_create_id_use_data(&mut csprng);
+    let mut keys = BTreeMap::new();
+    keys.insert(KeyIndex(0), KeyPair::generate(&mut csprng));
+    keys.insert(KeyIndex(7), KeyPair::generate(&mut csprng));
+    let acc = idt::InitialAccountData { keys, threshold: idt::SignatureThreshold::TWO };
+    let (context, pio, _) = test_create_pio(&id_use_data, &ip_info, &ars_infos, &global, num_ars, &acc);
+    let alist = test_create_attributes();
+    let (sig, icdi) = verify_credentials(&pio, context, &alist, EXPIRY, &ip_secret_key, &ip_cdi_secret_key).expect("issue");
+    let ido = idt::IdentityObject { pre_identity_object: pio, alist, signature: sig };
+    let mut pv = BTreeMap::new();
+    pv.insert(idt::AttributeTag::from(8u8), AttributeKind::from(31));
+    let policy = idt::Policy { valid_to: idt::YearMonth::try_from(2022 << 8 | 5).unwrap(), created_at: idt::YearMonth::try_from(2020 << 8 | 5).unwrap(),
+                               policy_vec: pv, _phantom: Default::default() };
+    let mut ckeys = BTreeMap::new();
+    ckeys.insert(KeyIndex(0), KeyPair::generate(&mut csprng));
+    ckeys.insert(KeyIndex(255), KeyPair::generate(&mut csprng));
+    let cd = idt::CredentialData { keys: ckeys, threshold: idt::SignatureThreshold::ONE };
+    let (cdi, _) = create_credential(context, &ido, &id_use_data, 0, policy, &cd, &idt::SystemAttributeRandomness {}, &either::Either::Left(EXPIRY)).expect("credential");
+    // encrypted transfers
+    let sk = elgamal::SecretKey::generate(global.elgamal_generator(), &mut csprng);
+    let sk2 = elgamal::SecretKey::generate(global.elgamal_generator(), &mut csprng);
+    let pk2 = elgamal::PublicKey::from(&sk2);
+    let bal = 1_000_000u64;
+    let input = concordium_base::encrypted_transfers::types::AggregatedDecryptedAmount {
+        agg_encrypted_amount: et::encrypt_amount_with_fixed_randomness(&global, Amount::from_micro_ccd(bal)),
+        agg_amount: Amount::from_micro_ccd(bal), agg_index: 3u64.into() };
+    let enc = et::make_transfer_data(&global, &pk2, &sk, &input, Amount::from_micro_ccd(777), &mut csprng).expect("transfer data");
+    let s2p = et::make_sec_to_pub_transfer_data(&global, &sk, &input, Amount::from_micro_ccd(bal), &mut csprng).expect("sec to pub");
+    Heavy { ip_info, ars: ars_infos.into_values().collect(), icdi, cdi, enc, s2p }
+}
+
+fn de<T: Deserial>(b: &[u8]) -> T { concordium_base::common::from_bytes(&mut std::io::Cursor::new(b)).expect("fixture bytes decode") }
+
+const PAYLOAD_ALL: &[&str] = &["DeployModule", "InitContract", "Update", "Transfer", "AddBaker", "RemoveBaker", "UpdateBakerStake",
+    "UpdateBakerRestakeEarnings", "UpdateBakerKeys", "UpdateCredentialKeys", "EncryptedAmountTransfer", "TransferToEncrypted", "TransferToPublic",
+    "TransferWithSchedule", "UpdateCredentials", "RegisterData", "TransferWithMemo", "EncryptedAmountTransferWithMemo",
+    "TransferWithScheduleAndMemo", "ConfigureBaker", "ConfigureDelegation", "TokenUpdate"];
+fn payload_variant(p: &Payload) -> &'static str {
+    match p {
+        Payload::DeployModule { .. } => "DeployModule", Payload::InitContract { .. } => "InitContract", Payload::Update { .. } => "Update",
+        Payload::Transfer { .. } => "Transfer", Payload::AddBaker { .. } => "AddBaker", Payload::RemoveBaker => "RemoveBaker",
+        Payload::UpdateBakerStake { .. } => "UpdateBakerStake", Payload::UpdateBakerRestakeEarnings { .. } => "UpdateBakerRestakeEarnings",
+        Payload::UpdateBakerKeys { .. } => "UpdateBakerKeys", Payload::UpdateCredentialKeys { .. } => "UpdateCredentialKeys",
+        Payload::EncryptedAmountTransfer { .. } => "EncryptedAmountTransfer", Payload::TransferToEncrypted { .. } => "TransferToEncrypted",
+        Payload::TransferToPublic { .. } => "TransferToPublic", Payload::TransferWithSchedule { .. } => "TransferWithSchedule",
+        Payload::UpdateCredentials { .. } => "UpdateCredentials", Payload::RegisterData { .. } => "RegisterData",
+        Payload::TransferWithMemo { .. } => "TransferWithMemo", Payload::EncryptedAmountTransferWithMemo { .. } => "EncryptedAmountTransferWithMemo",
+        Payload::TransferWithScheduleAndMemo { .. } => "TransferWithScheduleAndMemo", Payload::ConfigureBaker { .. } => "ConfigureBaker",
+        Payload::ConfigureDelegation { .. } => "ConfigureDelegation", Payload::TokenUpdate { .. } => "TokenUpdate",
+    }
+}
+const ROOT_ALL: &[&str] = &["RootKeysUpdate", "Level1KeysUpdate", "Level2KeysUpdate", "Level2KeysUpdateV1", "Level2KeysUpdateV2"];
+fn root_variant(r: &RootUpdate) -> &'static str {
+    match r { RootUpdate::RootKeysUpdate(_) => "RootKeysUpdate", RootUpdate::Level1KeysUpdate(_) => "Level1KeysUpdate",
+              RootUpdate::Level2KeysUpdate(_) => "Level2KeysUpdate", RootUpdate::Level2KeysUpdateV1(_) => "Level2KeysUpdateV1",
+              RootUpdate::Level2KeysUpdateV2(_) => "Level2KeysUpdateV2" }
+}
+const LEVEL1_ALL: &[&str] = &["Level1KeysUpdate", "Level2KeysUpdate", "Level2KeysUpdateV1", "Level2KeysUpdateV2"];
+fn level1_variant(r: &Level1Update) -> &'static str {
+    match r { Level1Update::Level1KeysUpdate(_) => "Level1KeysUpdate", Level1Update::Level2KeysUpdate(_) => "Level2KeysUpdate",
+              Level1Update::Level2KeysUpdateV1(_) => "Level2KeysUpdateV1", Level1Update::Level2KeysUpdateV2(_) => "Level2KeysUpdateV2" }
+}
+const UPDATE_ALL: &[&str] = &["Protocol", "ElectionDifficulty", "EuroPerEnergy", "MicroGTUPerEuro", "FoundationAccount", "MintDistribution",
+    "TransactionFeeDistribution", "GASRewards", "BakerStakeThreshold",
+    "Root/RootKeysUpdate", "Root/Level1KeysUpdate", "Root/Level2KeysUpdate", "Root/Level2KeysUpdateV1", "Root/Level2KeysUpdateV2",
+    "Level1/Level1KeysUpdate", "Level1/Level2KeysUpdate", "Level1/Level2KeysUpdateV1", "Level1/Level2KeysUpdateV2",
+    "AddAnonymityRevoker", "AddIdentityProvider", "CooldownParametersCPV1", "PoolParametersCPV1", "TimeParametersCPV1", "MintDistributionCPV1",
+    "GASRewardsCPV2", "TimeoutParametersCPV2", "MinBlockTimeCPV2", "BlockEnergyLimitCPV2", "FinalizationCommitteeParametersCPV2",
+    "ValidatorScoreParametersCPV3", "CreatePlt"];
+fn update_variant(u: &UpdatePayload) -> String {
+    match u {
+        UpdatePayload::Protocol(_) => "Protocol".into(), UpdatePayload::ElectionDifficulty(_) => "ElectionDifficulty".into(),
+        UpdatePayload::EuroPerEnergy(_) => "EuroPerEnergy".into(), UpdatePayload::MicroGTUPerEuro(_) => "MicroGTUPerEuro".into(),
+        UpdatePayload::FoundationAccount(_) => "FoundationAccount".into(), UpdatePayload::MintDistribution(_) => "MintDistribution".into(),
+        UpdatePayload::TransactionFeeDistribution(_) => "TransactionFeeDistribution".into(), UpdatePayload::GASRewards(_) => "GASRewards".into(),
+        UpdatePayload::BakerStakeThreshold(_) => "BakerStakeThreshold".into(),
+        UpdatePayload::Root(r) => format!("Root/{}", root_variant(r)), UpdatePayload::Level1(l) => format!("Level1/{}", level1_variant(l)),
+        UpdatePayload::AddAnonymityRevoker(_) => "AddAnonymityRevoker".into(), UpdatePayload::AddIdentityProvider(_) => "AddIdentityProvider".into(),
+        UpdatePayload::CooldownParametersCPV1(_) => "CooldownParametersCPV1".into(), UpdatePayload::PoolParametersCPV1(_) => "PoolParametersCPV1".into(),
+        UpdatePayload::TimeParametersCPV1(_) => "TimeParametersCPV1".into(), UpdatePayload::MintDistributionCPV1(_) => "MintDistributionCPV1".into(),
+        UpdatePayload::GASRewardsCPV2(_) => "GASRewardsCPV2".into(), UpdatePayload::TimeoutParametersCPV2(_) => "TimeoutParametersCPV2".into(),
+        UpdatePayload::MinBlockTimeCPV2(_) => "MinBlockTimeCPV2".into(), UpdatePayload::BlockEnergyLimitCPV2(_) => "BlockEnergyLimitCPV2".into(),
+        UpdatePayload::FinalizationCommitteeParametersCPV2(_) => "FinalizationCommitteeParametersCPV2".into(),
+        UpdatePayload::ValidatorScoreParametersCPV3(_) => "ValidatorScoreParametersCPV3".into(), UpdatePayload::CreatePlt(_) => "CreatePlt".into(),
+    }
+}
+const BLOCKITEM_ALL: &[&str] = &["AccountTransaction", "CredentialDeployment/Initial", "CredentialDeployment/Normal", "UpdateInstruction", "AccountTransactionV1"];
+fn blockitem_variant(b: &BI) -> &'static str {
+    match b {
+        BlockItem::AccountTransaction(_) => "AccountTransaction",
+        BlockItem::CredentialDeployment(m) => match m.credential { idt::AccountCredential::Initial { .. } => "CredentialDeployment/Initial",
+                                                                    idt::AccountCredential::Normal { .. } => "CredentialDeployment/Normal" },
+        BlockItem::UpdateInstruction(_) => "UpdateInstruction", BlockItem::AccountTransactionV1(_) => "AccountTransactionV1",
+    }
+}
+const ADDRESS_ALL: &[&str] = &["Account", "Contract"];
+fn address_variant(a: &Address) -> &'static str { match a { Address::Account(_) => "Account", Address::Contract(_) => "Contract" } }
+const DELEGATION_ALL: &[&str] = &["Passive", "Baker"];
+fn delegation_variant(d: &DelegationTarget) -> &'static str { match d { DelegationTarget::Passive => "Passive", DelegationTarget::Baker { .. } => "Baker" } }
+const OPEN_ALL: &[&str] = &["OpenForAll", "ClosedForNew", "ClosedForAll"];
+fn open_variant(o: &OpenStatus) -> &'static str { match o { OpenStatus::OpenForAll => "OpenForAll", OpenStatus::ClosedForNew => "ClosedForNew", OpenStatus::ClosedForAll => "ClosedForAll" } }
+const VERIFYKEY_ALL: &[&str] = &["Ed25519VerifyKey"];
+fn verifykey_variant(k: &VerifyKey) -> &'static str { match k { VerifyKey::Ed25519VerifyKey(_) => "Ed25519VerifyKey" } }
+const PV_ALL: &[&str] = &["P1", "P2", "P3", "P4", "P5", "P6", "P7", "P8", "P9", "P10"];
+fn pv_variant(p: &ProtocolVersion) -> &'static str {
+    match p { ProtocolVersion::P1 => "P1", ProtocolVersion::P2 => "P2", ProtocolVersion::P3 => "P3", ProtocolVersion::P4 => "P4", ProtocolVersion::P5 => "P5",
+              ProtocolVersion::P6 => "P6", ProtocolVersion::P7 => "P7", ProtocolVersion::P8 => "P8", ProtocolVersion::P9 => "P9", ProtocolVersion::P10 => "P10" }
+}
+const IPADDR_ALL: &[&str] = &["V4", "V6"];
+fn ipaddr_variant(a: &std::net::IpAddr) -> &'static str { match a { std::net::IpAddr::V4(_) => "V4", std::net::IpAddr::V6(_) => "V6" } }
+
+/// The value oracle.  `id`: schema id when the type has a schema term (the check then also runs the
+/// model on the bytes).
+fn value_oracle<T: Serial + Deserial + std::fmt::Debug>(en: &str, label: &str, id: Option<u32>, v: &T, relabel: &dyn Fn(&T) -> String) {
+    let mut why: Vec<String> = vec![];
+    let bytes = match guarded(|| to_bytes(v)) { Ok(b) => b, Err(e) => { println!("{}", json!({"k": "variant", "enum": en, "variant": label, "ok": false, "why": [format!("encoder panicked: {}", e)], "hex": ""})); return; } };
+    set_case(en, &hex(&bytes));
+    let mut with_junk = bytes.clone();
+    with_junk.extend_from_slice(&[0xAA, 0x55, 0x01]);
+    for (name, input) in [("exact", &bytes), ("trailing", &with_junk)] {
+        let mut cur = std::io::Cursor::new(&input[..]);
+        match guarded(|| T::deserial(&mut cur)) {
+            Err(e) => why.push(format!("{}: decoder panicked: {}", name, e)),
+            Ok(Err(e)) => why.push(format!("{}: decode(encode v) failed: {}", name, e)),
+            Ok(Ok(v2)) => {
+                if cur.position() as usize != bytes.len() { why.push(format!("{}: consumed {} of {} bytes", name, cur.position(), bytes.len())); }
+                if format!("{:?}", v2) != format!("{:?}", v) { why.push(format!("{}: decode(encode v) != v", name)); }
+                if relabel(&v2) != label { why.push(format!("{}: decoded as variant {}", name, relabel(&v2))); }
+                if guarded(|| to_bytes(&v2)).ok().as_deref() != Some(&bytes[..]) { why.push(format!("{}: re-encoding differs", name)); }
+            }
+        }
+    }
+    println!("{}", json!({"k": "variant", "enum": en, "variant": label, "id": id, "ok": why.is_empty(), "why": why, "hex": hex(&bytes), "len": bytes.len()}));
+}
+
+fn variants(seed: u64, reps: u64) {
+    let pool = make_pool(seed);
+    let heavy = match guarded(|| make_heavy(seed)) { Ok(h) => h, Err(e) => { println!("{}", json!({"k": "variant_setup_failed", "why": e})); return; } };
+    let mut g = G { r: Rng::new(seed ^ 0x7a71), pool: &pool };
+    let mut made: BTreeMap<(String, String), u64> = BTreeMap::new();
+    macro_rules! emit { ($en:expr, $id:expr, $v:expr, $lab:expr) => {{
+        let v = $v; let f = $lab; let label: String = f(&v);
+        *made.entry(($en.to_string(), label.clone())).or_insert(0) += 1;
+        value_oracle($en, &label, $id, &v, &|x| f(x));
+    }}; }
+    let pl = |p: &Payload| payload_variant(p).to_string();
+    for rep in 0..reps {
+        // ---- Payload: the variants with generators in G (sizes vary per repetition) ...
+        for _ in 0..14 { emit!("Payload", Some(27), g.payload(), pl); }
+        for want in ["Transfer", "AddBaker", "RemoveBaker", "UpdateBakerStake", "UpdateBakerRestakeEarnings", "UpdateBakerKeys", "UpdateCredentialKeys",
+                     "TransferToEncrypted", "TransferWithSchedule", "RegisterData", "TransferWithMemo", "TransferWithScheduleAndMemo", "ConfigureBaker", "ConfigureDelegation"] {
+            if rep == 0 { loop { let p = g.payload(); if payload_variant(&p) == want { emit!("Payload", Some(27), p, pl); break; } } }
+        }
+        // ... and the others
+        let src_len = *g.r.pick(&[0usize, 1, 8, 300]);
+        let mut wasm = vec![0, 0, 0, (rep % 2) as u8]; wasm.extend((src_len as u32).to_be_bytes()); wasm.extend(g.r.bytes(src_len));
+        emit!("Payload", Some(27), Payload::DeployModule { module: de(&wasm) }, pl);
+        let name = format!("init_{}", "c".repeat(*g.r.pick(&[1usize, 5, 95])));
+        let param = { let l = *g.r.pick(&[0usize, 1, 40, 65535]); let mut b = (l as u16).to_be_bytes().to_vec(); b.extend(g.r.bytes(l)); b };
+        emit!("Payload", Some(27), Payload::InitContract { payload: InitContractPayload { amount: g.amount(), mod_ref: de(&g.r.bytes(32)),
+            init_name: concordium_base::smart_contracts::OwnedContractName::new_unchecked(name.clone()), param: de(&param) } }, pl);
+        let rname = format!("{}.{}", &name[5..], "f".repeat(*g.r.pick(&[1usize, 3])));
+        emit!("Payload", Some(27), Payload::Update { payload: UpdateContractPayload { amount: g.amount(), address: ContractAddress::new(g.r.u64_edge(), g.r.u64_edge()),
+            receive_name: concordium_base::smart_contracts::OwnedReceiveName::new_unchecked(rname), message: de(&param) } }, pl);
+        emit!("Payload", Some(27), Payload::EncryptedAmountTransfer { to: g.addr(), data: Box::new(heavy.enc.clone()) }, pl);
+        emit!("Payload", Some(27), Payload::EncryptedAmountTransferWithMemo { to: g.addr(), memo: g.memo(), data: Box::new(heavy.enc.clone()) }, pl);
+        emit!("Payload", Some(27), Payload::TransferToPublic { data: Box::new(heavy.s2p.clone()) }, pl);
+        let mut creds = BTreeMap::new();
+        if rep % 2 == 0 { creds.insert(CredentialIndex { index: g.r.below(256) as u8 }, heavy.cdi.clone()); }
+        let remove: Vec<CredentialRegistrationID> = (0..(rep % 3)).map(|i| de(&pool.cred_id[i as usize])).collect();
+        emit!("Payload", Some(27), Payload::UpdateCredentials { new_cred_infos: creds, remove_cred_ids: remove, new_threshold: (1 + g.r.below(255) as u8).try_into().unwrap() }, pl);
+        let tok = { let id = *g.r.pick(&["T", "TOKEN", "a-b.c%d"]); let mut b = vec![id.len() as u8]; b.extend(id.as_bytes()); b };
+        let cbor = { let l = *g.r.pick(&[0usize, 1, 50, 5000]); let mut b = (l as u32).to_be_bytes().to_vec(); b.extend(g.r.bytes(l)); b };
+        emit!("Payload", Some(27), Payload::TokenUpdate { payload: concordium_base::protocol_level_tokens::TokenOperationsPayload { token_id: de(&tok), operations: de(&cbor) } }, pl);
+
+        // ---- UpdatePayload
+        let ul = |u: &UpdatePayload| update_variant(u);
+        for w in 0..5 { emit!("UpdatePayload", Some(34), UpdatePayload::Root(g.root_update(w)), ul); }
+        for w in 0..4 { emit!("UpdatePayload", Some(34), UpdatePayload::Level1(g.level1_update(w)), ul); }
+        for w in 0..5 { emit!("RootUpdate", Some(47), g.root_update(w), |r: &RootUpdate| root_variant(r).to_string()); }
+        for w in 0..4 { emit!("Level1Update", Some(48), g.level1_update(w), |r: &Level1Update| level1_variant(r).to_string()); }
+        for _ in 0..12 { emit!("UpdatePayload", Some(34), g.update_payload(), ul); }
+        let (l1, l2, l3) = (*g.r.pick(&[0u64, 10, 5000]), *g.r.pick(&[0u64, 30, 4097]), *g.r.pick(&[0usize, 10, 5000]));
+        let s1 = g.ascii(l1); let s2 = g.ascii(l2); let aux = g.small_bytes(l3);
+        emit!("UpdatePayload", Some(34), UpdatePayload::Protocol(ProtocolUpdate { message: s1, specification_url: s2, specification_hash: de(&g.r.bytes(32)), specification_auxiliary_data: aux }), ul);
+        let (a, b) = g.coprime();
+        emit!("UpdatePayload", Some(34), UpdatePayload::MicroGTUPerEuro(ExchangeRate::new(a.max(1), b).unwrap_or(ExchangeRate::new_unchecked(1, 1))), ul);
+        let (a, b) = g.coprime();
+        emit!("UpdatePayload", Some(34), UpdatePayload::EuroPerEnergy(ExchangeRate::new(a.max(1), b).unwrap_or(ExchangeRate::new_unchecked(1, 1))), ul);
+        emit!("UpdatePayload", Some(34), UpdatePayload::ElectionDifficulty(ElectionDifficulty::new(*g.r.pick(&[0u32, 1, 100_000])).unwrap()), ul);
+        emit!("UpdatePayload", Some(34), UpdatePayload::FoundationAccount(g.addr()), ul);
+        let half = *g.r.pick(&[0u32, 1, 50_000, 100_000]);
+        let fr = |x: u32| AmountFraction::new(x).unwrap();
+        emit!("UpdatePayload", Some(34), UpdatePayload::MintDistribution(MintDistributionV0 { mint_per_slot: MintRate { mantissa: g.r.u32_edge(), exponent: g.r.below(256) as u8 },
+            baking_reward: fr(half), finalization_reward: fr(100_000 - half) }), ul);
+        emit!("UpdatePayload", Some(34), UpdatePayload::MintDistributionCPV1(MintDistributionV1 { baking_reward: fr(half), finalization_reward: fr((100_000 - half) / 2) }), ul);
+        emit!("UpdatePayload", Some(34), UpdatePayload::TransactionFeeDistribution(TransactionFeeDistribution { baker: fr(half), gas_account: fr(100_000 - half) }), ul);
+        emit!("UpdatePayload", Some(34), UpdatePayload::GASRewards(GASRewards { baker: g.fraction(), finalization_proof: g.fraction(), account_creation: g.fraction(), chain_update: g.fraction() }), ul);
+        emit!("UpdatePayload", Some(34), UpdatePayload::GASRewardsCPV2(GASRewardsV1 { baker: g.fraction(), account_creation: g.fraction(), chain_update: g.fraction() }), ul);
+        emit!("UpdatePayload", Some(34), UpdatePayload::BakerStakeThreshold(BakerParameters { minimum_threshold_for_baking: g.amount() }), ul);
+        emit!("UpdatePayload", Some(34), UpdatePayload::AddAnonymityRevoker(Box::new(heavy.ars[(rep as usize) % heavy.ars.len()].clone())), ul);
+        emit!("UpdatePayload", Some(34), UpdatePayload::AddAnonymityRevoker(Box::new(g.ar_info())), ul);
+        emit!("UpdatePayload", Some(34), UpdatePayload::AddIdentityProvider(Box::new(heavy.ip_info.clone())), ul);
+        emit!("UpdatePayload", Some(34), UpdatePayload::CooldownParametersCPV1(CooldownParameters { pool_owner_cooldown: DurationSeconds { seconds: g.r.u64_edge() }, delegator_cooldown: DurationSeconds { seconds: g.r.u64_edge() } }), ul);
+        let rng_ = |lo: u32, hi: u32| { let mut b = to_bytes(&fr(lo)); b.extend(to_bytes(&fr(hi))); b };
+        let mut pp = vec![]; for _ in 0..3 { pp.extend(to_bytes(&g.fraction())); }
+        pp.extend(rng_(0, 100_000)); pp.extend(rng_(half, half)); pp.extend(rng_(0, half));
+        pp.extend(to_bytes(&g.amount())); pp.extend(to_bytes(&g.fraction()));
+        let (a, b) = g.coprime(); let (a, b) = if a >= b { (a, b) } else { (b, a.max(1)) }; let gg = num::integer::gcd(a, b);
+        pp.extend(to_bytes(&(a / gg))); pp.extend(to_bytes(&(b / gg)));
+        emit!("UpdatePayload", Some(34), UpdatePayload::PoolParametersCPV1(de(&pp)), ul);
+        let mut tp = to_bytes(&g.r.u64_edge()); tp.extend(to_bytes(&g.r.u32_edge())); tp.push(g.r.below(256) as u8);
+        emit!("UpdatePayload", Some(34), UpdatePayload::TimeParametersCPV1(de(&tp)), ul);
+        emit!("UpdatePayload", Some(34), UpdatePayload::TimeoutParametersCPV2(TimeoutParameters::new(concordium_base::contracts_common::Duration::from_millis(g.r.u64_edge()),
+            Ratio::new(*g.r.pick(&[2u64, 3, u64::MAX]), 1).unwrap(), Ratio::new(1, *g.r.pick(&[2u64, 3, u64::MAX])).unwrap()).unwrap()), ul);
+        emit!("UpdatePayload", Some(34), UpdatePayload::MinBlockTimeCPV2(concordium_base::contracts_common::Duration::from_millis(g.r.u64_edge())), ul);
+        emit!("UpdatePayload", Some(34), UpdatePayload::BlockEnergyLimitCPV2(g.r.u64_edge().into()), ul);
+        emit!("UpdatePayload", Some(34), UpdatePayload::FinalizationCommitteeParametersCPV2(FinalizationCommitteeParameters { min_finalizers: g.r.u32_edge(), max_finalizers: g.r.u32_edge(),
+            finalizers_relative_stake_threshold: PartsPerHundredThousands::new(half).unwrap() }), ul);
+        emit!("UpdatePayload", Some(34), UpdatePayload::ValidatorScoreParametersCPV3(ValidatorScoreParameters { max_missed_rounds: g.r.u64_edge() }), ul);
+        emit!("UpdatePayload", Some(34), UpdatePayload::CreatePlt(CreatePlt { token_id: de(&tok), token_module: de(&g.r.bytes(32)), decimals: g.r.below(256) as u8, initialization_parameters: de(&cbor) }), ul);
+
+        // ---- BlockItem
+        let bl = |b: &BI| blockitem_variant(b).to_string();
+        emit!("BlockItem", Some(35), BI::AccountTransaction(g.account_tx_encoded()), bl);
+        emit!("BlockItem", Some(35), BI::UpdateInstruction(g.update_instruction()), bl);
+        emit!("BlockItem", Some(35), BI::AccountTransactionV1(g.account_tx_v1()), bl);
+        emit!("BlockItem", Some(35), BI::CredentialDeployment(Box::new(idt::AccountCredentialMessage { message_expiry: TransactionTime::from_seconds(g.r.u64_edge()),
+            credential: idt::AccountCredential::Initial { icdi: heavy.icdi.clone() } })), bl);
+        emit!("BlockItem", Some(35), BI::CredentialDeployment(Box::new(idt::AccountCredentialMessage { message_expiry: TransactionTime::from_seconds(g.r.u64_edge()),
+            credential: idt::AccountCredential::Normal { cdi: heavy.cdi.clone() } })), bl);
+
+        // ---- small sum types
+        emit!("Address", Some(4), Address::Account(g.addr()), |a: &Address| address_variant(a).to_string());
+        emit!("Address", Some(4), Address::Contract(ContractAddress::new(g.r.u64_edge(), g.r.u64_edge())), |a: &Address| address_variant(a).to_string());
+        emit!("DelegationTarget", Some(20), DelegationTarget::Passive, |d: &DelegationTarget| delegation_variant(d).to_string());
+        emit!("DelegationTarget", Some(20), DelegationTarget::Baker { baker_id: BakerId::from(AccountIndex::from(g.r.u64_edge())) }, |d: &DelegationTarget| delegation_variant(d).to_string());
+        for o in [OpenStatus::OpenForAll, OpenStatus::ClosedForNew, OpenStatus::ClosedForAll] { emit!("OpenStatus", Some(19), o, |o: &OpenStatus| open_variant(o).to_string()); }
+        emit!("VerifyKey", Some(16), g.verify_key(), |k: &VerifyKey| verifykey_variant(k).to_string());
+        for p in [ProtocolVersion::P1, ProtocolVersion::P2, ProtocolVersion::P3, ProtocolVersion::P4, ProtocolVersion::P5, ProtocolVersion::P6,
+                  ProtocolVersion::P7, ProtocolVersion::P8, ProtocolVersion::P9, ProtocolVersion::P10] {
+            if rep == 0 { emit!("ProtocolVersion", None, p, |p: &ProtocolVersion| pv_variant(p).to_string()); } }
+        let v4 = g.r.bytes(4); let v6 = g.r.bytes(16);
+        emit!("IpAddr", None, std::net::IpAddr::V4(std::net::Ipv4Addr::new(v4[0], v4[1], v4[2], v4[3])), |a: &std::net::IpAddr| ipaddr_variant(a).to_string());
+        emit!("IpAddr", None, std::net::IpAddr::V6({ let mut o = [0u8; 16]; o.copy_from_slice(&v6); std::net::Ipv6Addr::from(o) }), |a: &std::net::IpAddr| ipaddr_variant(a).to_string());
+    }
+    // coverage: every variant of every enum must have been constructed
+    let mut cov = serde_json::Map::new();
+    let mut missing = vec![];
+    for (en, all) in [("Payload", PAYLOAD_ALL), ("UpdatePayload", UPDATE_ALL), ("RootUpdate", ROOT_ALL), ("Level1Update", LEVEL1_ALL), ("BlockItem", BLOCKITEM_ALL),
+                      ("Address", ADDRESS_ALL), ("DelegationTarget", DELEGATION_ALL), ("OpenStatus", OPEN_ALL), ("VerifyKey", VERIFYKEY_ALL),
+                      ("ProtocolVersion", PV_ALL), ("IpAddr", IPADDR_ALL)] {
+        let mut m = serde_json::Map::new();
+        for v in all.iter() {
+            let n = made.get(&(en.to_string(), v.to_string())).copied().unwrap_or(0);
+            if n == 0 { missing.push(format!("{}::{}", en, v)); }
+            m.insert(v.to_string(), json!(n));
+        }
+        cov.insert(en.to_string(), serde_json::Value::Object(m));
+    }
+    let unexpected: Vec<String> = made.keys().filter(|(en, v)| {
+        let all: &[&str] = match en.as_str() { "Payload" => PAYLOAD_ALL, "UpdatePayload" => UPDATE_ALL, "RootUpdate" => ROOT_ALL, "Level1Update" => LEVEL1_ALL,
+            "BlockItem" => BLOCKITEM_ALL, "Address" => ADDRESS_ALL, "DelegationTarget" => DELEGATION_ALL, "OpenStatus" => OPEN_ALL, "VerifyKey" => VERIFYKEY_ALL,
+            "ProtocolVersion" => PV_ALL, "IpAddr" => IPADDR_ALL, _ => &[] };
+        !all.contains(&v.as_str()) }).map(|(a, b)| format!("{}::{}", a, b)).collect();
+    println!("{}", json!({"k": "variant_coverage", "coverage": cov, "missing": missing, "unlisted": unexpected}));
+}
+
 fn main() {
     quiet_panics();
     let args: Vec<String> = std::env::args().collect();
@@ -521,14 +882,14 @@ fn main() {
     match mode {
         "pool" => {
             let p = make_pool(seed);
-            for (k, l) in [(1, &p.ed_pk), (2, &p.vrf_pk), (3, &p.bls_pk), (4, &p.dlog), (5, &p.blsproof), (7, &p.cred_id)] {
+            for (k, l) in [(1, &p.ed_pk), (2, &p.vrf_pk), (3, &p.bls_pk), (4, &p.dlog), (5, &p.blsproof), (7, &p.cred_id), (8, &p.elg_pk)] {
                 for e in l.iter() { println!("{} {}", k, hex(e)); }
             }
         }
         "gen" => {
             let p = make_pool(seed);
             let mut g = G { r: Rng::new(seed ^ 0xabcdef), pool: &p };
-            for id in 1..=43u32 {
+            for id in 1..=MAX_ID {
                 for _ in 0..n {
                     match guarded(|| g.gen(id)) {
                         Ok(Some(b)) => println!("{} {}", id, hex(&b)),
@@ -554,7 +915,7 @@ fn main() {
                     None => { let _ = writeln!(w, "{}", json!({"i": i, "r": "?"})); }
                     Some(o) => {
                         // variant tag for the sum types with unmodelled variants
-                        let vt = if o.r == 'A' { match key { "27" | "34" | "35" => o.reenc.first().copied(),
+                        let vt = if o.r == 'A' { match key { "27" | "34" | "35" | "47" | "48" => o.reenc.first().copied(),
                             "28" => { let mut c = std::io::Cursor::new(&input[..]);
                                       AccountTransaction::<Payload>::deserial(&mut c).ok().map(|t| to_bytes(&t.payload)[0]) }
                             _ => None } } else { None };
@@ -566,7 +927,8 @@ fn main() {
             }
         }
         "fuzz" => fuzz(seed, n),
+        "variants" => variants(seed, n),
         "types" => { println!("{}", json!({"unmodelled": named_types()})); }
-        _ => { eprintln!("usage: c05 pool|gen|run|fuzz|types ..."); std::process::exit(2); }
+        _ => { eprintln!("usage: c05 pool|gen|run|fuzz|variants|types ..."); std::process::exit(2); }
     }
 }
